@@ -158,7 +158,7 @@ def write_evidence(tier, seed, cov, wall, violations, assumptions):
 
 
 SUMMED = ["runs", "calls", "forks", "nontrivial_runs", "isolation_checks", "disagreements", "signals_caught", "items_lost",
-          "hung_children", "unstable", "fine_executions", "concurrent_segments", "concurrent_calls", "yield_points",
+          "hung_children", "children_refused_threads", "unstable", "fine_executions", "concurrent_segments", "concurrent_calls", "yield_points",
           "preemptions", "baton_handoffs", "long_runs", "very_long_runs", "hot_loop_runs", "crowd_runs", "churn_runs", "planned_respawns", "threads_started",
           "lifecycle_probes", "early_calls", "late_calls", "clock_queries_inside_library_calls", "simulated_ns", "allocations_inside_library_calls", "allocation_failures_injected", "plans_with_allocations", "fault_injecting_executions",
           "access_records", "nonstack_writes_observed", "conflicting_call_pairs", "plans_with_conflicts", "directed_executions"]
@@ -329,6 +329,7 @@ def run_check(tier, seed):
         "synchronous_signals_caught_identically": total["signals_caught"],
         "items_lost_to_child_death": total["items_lost"],
         "hung_children": total["hung_children"],
+        "children_the_machine_refused_threads_for": total["children_refused_threads"],
         "process_life_cycle": {"probes": total["lifecycle_probes"], "calls_before_library_initialisers": total["early_calls"],
                                "calls_after_library_destructors": total["late_calls"],
                                "how": "the harness binary re-executes itself; sim/early.cc (linked before /repo's fixed_math.cc) calls from a global constructor and destructor"},
